@@ -300,7 +300,7 @@ def validate(ctx, recs, name="Trace_CdefApi"):
         chunk = slim[i:i + 1000]
         path = os.path.join(ctx.tmp, "api_trace_%d.json" % len(ctx.cov["tlc_runs"]))
         core.write_json(path, chunk)
-        r = core.tlc("Trace_CdefApi", workers=1, env={"TRACE_FILE": path}, timeout=1500)
+        r = core.tlc("Trace_CdefApi", workers=1, env={"TRACE_FILE": path, "JAVA_TOOL_OPTIONS": "-Xss256m"}, timeout=1500)
         ctx.add_tlc(name, r, count_states=False)
         got = tuples(r.out, "VERDICT")
         if len(got) != len(chunk):
